@@ -219,11 +219,22 @@ func (s *ReverseSuffixSearcher) Find(haystack []byte) *Match {
 	// Try each suffix candidate left-to-right until we find a valid match.
 	// This ensures leftmost semantics for multi-wildcard patterns.
 	pos := firstPos
+	minStart := 0 // Anti-quadratic guard, as in FindAt
 	for pos >= 0 && pos+s.suffixLen <= len(haystack) {
 		revEnd := pos + s.suffixLen
 
 		// Use reverse DFA to find match START position
-		matchStart := s.reverseDFA.SearchReverse(revCache, haystack, 0, revEnd)
+		matchStart := s.reverseDFA.SearchReverseLimited(revCache, haystack, 0, revEnd, minStart)
+		if matchStart == lazy.SearchReverseLimitedQuadratic {
+			// The reverse scan ran into the region already scanned for an earlier
+			// (failed) candidate: one linear PikeVM pass instead of O(n) per candidate.
+			start, end, found := s.pikevm.SearchAt(haystack, 0)
+			if found {
+				return NewMatch(start, end, haystack)
+			}
+			return nil
+		}
+		minStart = revEnd
 		if matchStart >= 0 {
 			// Forward verification: get correct greedy match end.
 			matchEnd := s.forwardDFA.SearchAtAnchored(fwdCache, haystack, matchStart)
